@@ -109,3 +109,77 @@ def dirty_verdict(status_text, files, allow):
             return {"ok": "abort"}
         except ValueError:
             return {"err": "ValueError"}
+
+
+# ---- v2 patterns / versions ------------------------------------------------
+
+def _match_json(m):
+    if m is None:
+        return {"nomatch": 1}
+    return {"span": [m.start(), m.end()], "groups": {k: v for k, v in m.groupdict().items() if v is not None}}
+
+
+def compile_str(pattern):
+    from bumpver import v2patterns
+    import re
+    try:
+        return {"ok": v2patterns._compile_pattern_re(pattern).pattern}
+    except re.error:
+        return {"err": "re.error"}
+
+
+def compile_search(pattern, line, mode="search"):
+    from bumpver import v2patterns
+    import re
+    try:
+        rx = v2patterns._compile_pattern_re(pattern)
+    except re.error:
+        return {"err": "re.error"}
+    return _match_json(rx.search(line) if mode == "search" else rx.match(line))
+
+
+def re_search(src, line):
+    import re
+    try:
+        return _match_json(re.compile(src).search(line))
+    except re.error:
+        return {"err": "re.error"}
+
+
+def normalize(version_pattern, raw_pattern):
+    from bumpver import v2patterns
+    try:
+        return {"ok": v2patterns.normalize_pattern(version_pattern, raw_pattern)}
+    except IndexError:
+        return {"err": "IndexError"}
+
+
+def to_pep440_pattern(version_pattern):
+    from bumpver import v2patterns
+    try:
+        return {"ok": v2patterns._convert_to_pep440(version_pattern)}
+    except IndexError:
+        return {"err": "IndexError"}
+
+
+def make_vinfo(state):
+    """state: dict with optional 'date' [y,m,d] (all nine calendar fields from that date) and
+    major minor patch bid tag num inc0 inc1"""
+    from bumpver import version, v2version
+    kw = dict(year_y=None, year_g=None, quarter=None, month=None, dom=None, doy=None, week_w=None, week_u=None, week_v=None,
+              major=0, minor=0, patch=0, bid="1000", tag="final", pytag="", githash="", hexhash="", num=0, inc0=0, inc1=1)
+    if state.get("date"):
+        kw.update(v2version.cal_info(dt.date(*state["date"]))._asdict())
+    for k in ("major", "minor", "patch", "bid", "tag", "num", "inc0", "inc1"):
+        if k in state:
+            kw[k] = state[k]
+    kw["pytag"] = version.PEP440_TAG_BY_TAG[kw["tag"]]
+    return version.V2VersionInfo(**kw)
+
+
+def format_version(state, pattern):
+    from bumpver import v2version
+    try:
+        return {"ok": v2version.format_version(make_vinfo(state), pattern)}
+    except (ValueError, KeyError, IndexError) as ex:
+        return {"err": exc_name(ex)}
